@@ -185,6 +185,7 @@ ASSUMPTIONS = [
     "Twisted is absent: Service.startService/stopService only flip 'running'; deferToThreadPool(reactor, pool, f) runs f on another thread and returns a handle that completes when f returns (documented contracts, not checked against Twisted)",
     "queue.SimpleQueue is an unbounded thread-safe FIFO: every SimpleQueue() created by logwriter.py (at import time or later) is a cooperative LazyQueue; threading.Thread start/join contract (SchedThread)",
     "threads interleave between source lines of eliot/logwriter.py",
+    "the wrapped destination may be arbitrarily slow: a wait with a timeout (Thread.join(t)) on a thread that has not finished times out",
 ]
 
 LW_FILE = logwriter.__file__
@@ -208,6 +209,7 @@ class RecQueue(SchedQueue):
 def body_E1(ctx):
     sh = ctx.shard
     sched = Sched(ctx, watch={LW_FILE: None}, preemptions=sh.get("P", 2))
+    sched.timeouts_expire = True  # the wrapped destination may be arbitrarily slow: any bounded wait can time out
     _CURRENT_SCHED[0] = sched
     log = []  # totally ordered event log (only one thread runs at a time)
     nprod = sh.get("producers", 1)
@@ -353,6 +355,7 @@ def body_E2(ctx):
 
     sh = ctx.shard
     sched = Sched(ctx, watch={LW_FILE: None}, preemptions=0, granularity="call", max_steps=200000)
+    sched.timeouts_expire = True
     _CURRENT_SCHED[0] = sched
     log = []
     K = BURSTS[ctx.choose(len(BURSTS), "burst size")]
